@@ -121,9 +121,14 @@ def generate(rng, tier, index, seed):
             spec["p1024"] = 1
             spec["seed"] = rng.below(1 << 30)
     else:
-        mode = rng.weighted([("points", 4), ("window", 3), ("every", 3), ("bernoulli", 2), ("aftergrow", 1)])
+        mode = rng.weighted([("points", 4), ("window", 3), ("every", 3), ("bernoulli", 2), ("aftergrow", 1), ("afterbig", 3 if fam != "deep" else 14)])
         spec = {"mode": mode}
-        if mode == "points":
+        if mode == "afterbig":
+            # collections at the k allocations that follow every allocation of at least min_bytes (a grown VM stack, a vector,
+            # a string buffer, a bignum): the moment a freshly built large object is referenced from few places
+            spec["min_bytes"] = rng.choice([256, 2048, 8192])
+            spec["k"] = rng.choice([1, 2, 4])
+        elif mode == "points":
             spec["fracs"] = [rng.below(1 << 20) for _ in range(rng.range(1, 12))]
         elif mode == "window":
             spec["a_frac"] = rng.below(1 << 20)
@@ -178,6 +183,9 @@ def resolve(case, nalloc):
             off = n - k * spec["max_gcs"]
         gc["n"] = k
         gc["off"] = off
+    elif m == "afterbig":
+        gc["min_bytes"] = spec["min_bytes"]
+        gc["k"] = spec["k"]
     elif m == "bernoulli":
         gc["p1024"] = spec["p1024"]
         gc["seed"] = spec["seed"]
